@@ -111,7 +111,10 @@ class World:
         # whenever the cyclic collector does; run it now and keep it off
         # while the ledger snapshot and the counts are compared, so that
         # the monitor's state is read atomically with what it shadows.
-        if self.kind == 'autoref':
+        # (the shard processes run with the automatic collector off, see
+        # vf/run.py; an explicit collection now and then bounds memory)
+        self._nchecks = getattr(self, '_nchecks', 0) + 1
+        if self.kind == 'autoref' and self._nchecks % 128 == 0:
             gc.collect()
         gc_was = gc.isenabled()
         gc.disable()
